@@ -19,8 +19,8 @@ LEVEL_TEXT = ('Held on the generated histories only: 2-4 stages with !del, !merg
               '1-4 levels down, child keys equal to ancestor keys, lists of scalars / mappings / lists, explicitly deleting empty containers) are built and '
               'compared type-exactly with the model; the model must first reproduce all usable dict/list/new_and_notnew fixtures (else inconclusive).')
 LEVEL_NOTE = ('Trusted: model.py as the reading of the statement (calibrated on 44 fixtures). Out of the checked domain because the statement is silent: scalar/container '
-              'conflicts that would discard higher-priority entries, priority tags on list elements, nested conflicting priority tags, !del on a falsy scalar, '
-              'value-less !del aimed at a missing key, a deleting mapping that addresses list indices.')
+              'conflicts that would discard higher-priority entries, priority tags on list elements, nested conflicting priority tags, '
+              'value-less !del aimed at a missing key, a deleting mapping over a list when either side carries priorities of its own.')
 RULE = ('seeded 2-4 stage sequences with deletion/merge tags and an antichain of priorities; non-trivial = the sequence contains a deleting node (explicit, list, '
         '!clear or value-less !del) that meets older content at its path; distinct = hash of texts')
 ASSUMPTIONS = ['model.py deletion semantics (relative look-up) is the reference; inputs outside the documented domain are skipped and counted']
@@ -44,8 +44,6 @@ def _place(rng, doc, stage, p_prio, p_del):
         if rng.random() < p_del and not (in_seq and rng.random() < 0.7):
             v = rng.choice([True, True, False])
             if n['t'] == 'sc':
-                if v and not n['v']:
-                    v = False            # "!del <falsy scalar>" is outside the checked domain
                 if in_seq:
                     v = None
             if v is not None:
@@ -96,7 +94,15 @@ def gen_case(rng, tier):
                 d = copy.deepcopy(d)
                 d['items'] = [it for it in d['items'] if it[0] != k] + [[k, rng.choice([M([]), L([])])]]
                 d['items'][-1][1]['del'] = True
-        out.append(_place(rng, d, i, p_prio, p_del))
+        d = _place(rng, d, i, p_prio, p_del)
+        if i > 0 and rng.random() < 0.15:
+            # an explicitly deleting scalar that merely is falsy: it has a value, the key stays
+            tops = [k for k, _ in docs[i - 1]['items'] if not (fpath and k == fpath[0])]
+            if tops:
+                k = rng.choice(tops)
+                d = copy.deepcopy(d)
+                d['items'] = [it for it in d['items'] if it[0] != k] + [[k, S(rng.choice([0, False, '', 0.0]), **{'del': True})]]
+        out.append(d)
     if fpath is not None:
         for d in out[1:]:
             for p, n in list(emit.walk(d)):
